@@ -15,7 +15,7 @@ clause -> what is compared
 
 import io
 
-from .. import common, e1
+from .. import common, e1, space
 from ..refmodel import relations_ref
 
 ID = 'C16'
@@ -32,7 +32,7 @@ BUDGET = {'quick': 240, 'thorough': 3000}
 
 
 def shards(tier):
-    return e1.std_shards(tier, with_p=True, with_big=True)
+    return e1.std_shards(tier, with_p=True, with_big=True, with_hist=True)
 
 
 def check_case(case, ctr):
@@ -106,7 +106,9 @@ def _printed(rel):
 
 
 def run_shard(shard, tier):
-    return e1.run_shard_generic(shard, tier, ID, check_case, variants=('used',))
+    res = e1.run_shard_generic(shard, tier, ID, check_case, variants=('used',))
+    # the empty string as a property / object label (a label like any other)
+    return e1.extra_labeling_pass(shard, tier, ID, check_case, (space.EMPTYP, space.EMPTYO), res)
 
 
 def main(tier):
